@@ -1,8 +1,9 @@
 #!/usr/bin/env python3
 # tools/static_check.py -- the development declares no axiom of its own and switches off no kernel check
-import re, glob, sys
+import re, glob, sys, os
+ROOT = os.path.dirname(os.path.dirname(os.path.abspath(__file__)))
 bad = []
-files = glob.glob('/verif/coq/theories/*.v') + glob.glob('/verif/coq/theories/Props/*.v') + glob.glob('/verif/coq/extract/*.v')
+files = glob.glob(ROOT + '/coq/theories/*.v') + glob.glob(ROOT + '/coq/theories/Props/*.v') + glob.glob(ROOT + '/coq/extract/*.v')
 for f in sorted(files):
     txt = re.sub(r'\(\*.*?\*\)', '', open(f).read(), flags=re.S)
     depth = 0
